@@ -302,11 +302,13 @@ func wakeScenarios() []wakeScenario {
 			}
 		}},
 		{"zero-deadline-nack-of-522-ids-spanning-subscriptions", func(e *Env, run func(*Op) *Obs) (string, func()) {
-			// one ModifyAckDeadline(0) far larger than any internal batch size: 520 leased deliveries
-			// of subscription c and a few of s0 - arranged so that s0's ids all sort into the first
-			// 500 - every subscription named by it is woken
+			// one ModifyAckDeadline(0) far larger than any internal batch size, over three
+			// subscriptions: the ids of s0 all sort into the first 500, those of d all into the rest,
+			// those of c are everywhere - every subscription named by the request is woken, whatever
+			// the order the request is processed in
 			baseSetup(run, false, false)
 			run(&Op{Kind: "CreateSub", Sub: &SubReq{Name: "projects/p/subscriptions/c", Topic: "projects/p/topics/t0"}})
+			run(&Op{Kind: "CreateSub", Sub: &SubReq{Name: "projects/p/subscriptions/d", Topic: "projects/p/topics/t0"}})
 			for i := 0; i < 520; i += 100 {
 				k := 100
 				if 520-i < k {
@@ -314,33 +316,36 @@ func wakeScenarios() []wakeScenario {
 				}
 				run(pub(k, ""))
 			}
-			oc := run(&Op{Kind: "Pull", Name: "projects/p/subscriptions/c", Max: 1000})
-			oa := run(&Op{Kind: "Pull", Name: "projects/p/subscriptions/s0", Max: 1000})
-			cIDs, aIDs := mustIDs(oc), mustIDs(oa)
+			cIDs := mustIDs(run(&Op{Kind: "Pull", Name: "projects/p/subscriptions/c", Max: 1000}))
+			aIDs := mustIDs(run(&Op{Kind: "Pull", Name: "projects/p/subscriptions/s0", Max: 1000}))
+			dIDs := mustIDs(run(&Op{Kind: "Pull", Name: "projects/p/subscriptions/d", Max: 1000}))
 			if len(aIDs) > 12 {
 				aIDs = aIDs[:12]
 			}
 			for {
-				all := append(append([]string{}, cIDs...), aIDs...)
+				all := append(append(append([]string{}, cIDs...), aIDs...), dIDs...)
 				sort.Strings(all) // canonical UUID strings sort like the ids
-				late := map[string]bool{}
+				pos := map[string]int{}
 				for i, id := range all {
-					if i >= 500 {
-						late[id] = true
-					}
+					pos[id] = i
 				}
-				var keep []string
+				var keepA, keepD []string
 				for _, id := range aIDs {
-					if !late[id] {
-						keep = append(keep, id)
+					if pos[id] < 500 {
+						keepA = append(keepA, id)
 					}
 				}
-				if len(keep) == len(aIDs) {
+				for _, id := range dIDs {
+					if pos[id] >= 500 {
+						keepD = append(keepD, id)
+					}
+				}
+				if len(keepA) == len(aIDs) && len(keepD) == len(dIDs) {
 					break
 				}
-				aIDs = keep
+				aIDs, dIDs = keepA, keepD
 			}
-			ids := append(append([]string{}, cIDs...), aIDs...)
+			ids := append(append(append([]string{}, cIDs...), aIDs...), dIDs...)
 			return "projects/p/subscriptions/s0", func() {
 				e.Exec(ctx, &Op{Kind: "ModAck", Name: "projects/p/subscriptions/c", AckIDs: ids, Seconds: 0}, &Dump{})
 			}
